@@ -589,10 +589,184 @@ Proof.
   replace (list_eqb op_eqb (erase ops new_deferred []) (erase ops new_deferred [])) with true
     by (symmetry; apply ops_eqb_spec; reflexivity).
   replace (log_eqb lg lg) with true by (symmetry; apply log_eqb_spec; reflexivity).
-  rewrite (Rel_state _ _ R).
-  replace (dstate_eqb (state_of de) (state_of de)) with true by (symmetry; apply dstate_eqb_spec; reflexivity).
-  destruct R as (A & _ & _ & _ & _ & U). unfold unhandled. rewrite A, U, !Bool.eqb_reflx. simpl.
-  rewrite <- U. destruct (d_debugfail d) eqn:DF; [|apply orb_true_r].
-  rewrite <- (Rel_state d de) by (repeat split; tauto || idtac).
+  pose proof (Rel_state _ _ R) as RS. destruct R as (A & _ & _ & _ & _ & U).
+  unfold unhandled. rewrite <- RS, <- A, <- U.
+  replace (dstate_eqb (state_of d) (state_of d)) with true by (symmetry; apply dstate_eqb_spec; reflexivity).
+  rewrite !Bool.eqb_reflx. simpl.
+  destruct (d_debugfail d) eqn:DF; [|apply orb_true_r].
   rewrite orb_false_r. apply good_unhandled; assumption.
 Qed.
+
+Lemma sync_fired s : sync_run_user (fired_stage s) = direct_run_user s.
+Proof. destruct s; reflexivity. Qed.
+
+Lemma sync_direct s :
+  sync_run_user (match s with inl v => StReturn v | inr e => StRaise e end) = direct_run_user s.
+Proof. destruct s; reflexivity. Qed.
+
+Theorem model_meets_spec : forall i, spec_okb i (model i) = true.
+Proof.
+  intros [ops|pos s]; simpl; [apply model_hist_okb|].
+  unfold sync_okb, model_sync. simpl. rewrite sync_fired.
+  replace (uret_eqb (direct_run_user s) (direct_run_user s)) with true
+    by (symmetry; apply uret_eqb_spec; reflexivity).
+  reflexivity.
+Qed.
+
+(* ====================================================================== *)
+(* 7. the clauses one by one                                               *)
+(* ====================================================================== *)
+Definition verdict (m : matcher) (d : deferred) (lg : log) : bool := fst (fst (match_deferred m d lg)).
+Definition after_match (m : matcher) (d : deferred) (lg : log) : deferred := snd (fst (match_deferred m d lg)).
+Definition log_after_match (m : matcher) (d : deferred) (lg : log) : log := snd (match_deferred m d lg).
+Definition final_of (ops : list op) (d : deferred) (lg : log) : deferred := snd (fst (run_ops ops d lg)).
+Definition log_of (ops : list op) (d : deferred) (lg : log) : log := snd (run_ops ops d lg).
+Definition obs_of (ops : list op) (d : deferred) (lg : log) : list oobs := fst (fst (run_ops ops d lg)).
+
+(* every state a history can reach is good *)
+Theorem reachable_good ops : good (final_of ops new_deferred []).
+Proof. apply run_ops_good, good_new. Qed.
+
+Lemma match_parts m d lg :
+  match_deferred m d lg = (verdict m d lg, after_match m d lg, log_after_match m d lg).
+Proof. unfold verdict, after_match, log_after_match. destruct (match_deferred m d lg) as [[? ?] ?]. reflexivity. Qed.
+
+Theorem verdict_spec m d lg : good d -> verdict m d lg = expect_match m (state_of d).
+Proof. intro G. destruct (match_deferred_okb m d lg G _ _ _ (match_parts m d lg)) as (H & _). exact H. Qed.
+
+(* exactly one of has_no_result / succeeded(Always) / failed(Always) matches: the one the state names *)
+Theorem trichotomy d lg : good d ->
+  let n := verdict MNoResult d lg in
+  let s := verdict (MSucceeded IAlways) d lg in
+  let f := verdict (MFailed IAlways) d lg in
+  match state_of d with
+  | SUnfired | SWaiting => n = true /\ s = false /\ f = false
+  | SVal _ => n = false /\ s = true /\ f = false
+  | SErr _ => n = false /\ s = false /\ f = true
+  end.
+Proof.
+  intro G. simpl. rewrite !verdict_spec by exact G. destruct (state_of d); simpl; auto.
+Qed.
+
+Theorem inner_clause m d lg : good d ->
+  (verdict MNoResult d lg = true <-> state_of d = SUnfired \/ state_of d = SWaiting)
+  /\ (verdict (MSucceeded m) d lg = true <-> exists v, state_of d = SVal v /\ inner_match m v = true)
+  /\ (verdict (MFailed m) d lg = true <-> exists e, state_of d = SErr e /\ inner_match m e = true).
+Proof.
+  intro G. rewrite !verdict_spec by exact G. destruct (state_of d) as [| |v|e]; simpl; repeat split;
+    try (intro H; discriminate H); try (intros [H|H]; discriminate H);
+    try (intros (x & H & _); discriminate H); auto.
+  - intro H. exists v. auto.
+  - intros (x & H & I). injection H as ->. exact I.
+  - intro H. exists e. auto.
+  - intros (x & H & I). injection H as ->. exact I.
+Qed.
+
+(* matching fires nothing: no callback runs, .called is what it was, and unless a failure
+   was looked at by succeeded()/failed() the inspected state is what it was *)
+Theorem nothing_fired m d lg : good d ->
+  log_after_match m d lg = lg
+  /\ d_called (after_match m d lg) = d_called d
+  /\ (inspects m (state_of d) = false -> state_of (after_match m d lg) = state_of d).
+Proof.
+  intro G. destruct (match_deferred_okb m d lg G _ _ _ (match_parts m d lg)) as (_ & C & L & A).
+  repeat split; try assumption. intro I. rewrite I in A. exact A.
+Qed.
+
+(* a failure looked at by succeeded()/failed() is consumed: handled, a None success from then on;
+   has_no_result() leaves it where it is (and unhandled) *)
+Theorem failure_handled m d lg e : good d -> state_of d = SErr e ->
+  match m with
+  | MNoResult => state_of (after_match m d lg) = SErr e /\ unhandled (after_match m d lg) = unhandled d
+  | _ => state_of (after_match m d lg) = SVal 0 /\ handled (after_match m d lg) = true
+  end.
+Proof.
+  intros G S. destruct (good_cases d G) as [I|[x ->]].
+  - rewrite (state_idle d I) in S. destruct (d_called d); discriminate.
+  - unfold after_match. rewrite match_deferred_ready. rewrite S. destruct x as [v|e']; [discriminate|].
+    simpl in S. injection S as ->. destruct m; simpl; split; reflexivity.
+Qed.
+
+(* ---- a match that does not consume a failure is invisible to everything that follows ---- *)
+Lemma Rel_idle d d' : Rel d d' -> idle d -> idle d'.
+Proof.
+  intros H I. pose proof (Rel_runnable d d' H) as R. destruct H as (_ & B & _).
+  unfold idle in *. rewrite <- R, <- B. exact I.
+Qed.
+
+Lemma step_Rel_all o d d' lg : good d -> Rel d d' ->
+  forall out d1 lg1, step o d lg = (out, d1, lg1) ->
+  exists d1', step o d' lg = (out, d1', lg1) /\ Rel d1 d1'.
+Proof.
+  intros G H out d1 lg1 E.
+  destruct o as [m|v|e|cb eb| | | |x]; try (apply (step_Rel _ d d' lg); [discriminate|assumption|assumption]).
+  simpl in *. destruct (match_deferred m d lg) as [[b dm] lgm] eqn:M. injection E as <- <- <-.
+  destruct (good_cases d G) as [I|[x ->]].
+  - rewrite (match_deferred_idle m d lg I) in M. injection M as <- <- <-.
+    rewrite (match_deferred_idle m d' lg (Rel_idle d d' H I)).
+    eexists; split; [reflexivity|apply Rel_with_cb, H].
+  - apply Rel_ready in H. subst d'. rewrite M. eexists; split; [reflexivity|apply Rel_refl].
+Qed.
+
+Lemma run_ops_Rel ops : forall d d' lg, good d -> Rel d d' ->
+  forall xs df lgf, run_ops ops d lg = (xs, df, lgf) ->
+  exists df', run_ops ops d' lg = (xs, df', lgf) /\ Rel df df'.
+Proof.
+  induction ops as [|o r IH]; intros d d' lg G H xs df lgf E.
+  - simpl in *. injection E as <- <- <-. eauto.
+  - rewrite run_ops_cons in *.
+    pose proof (step_good o d lg G) as G1.
+    destruct (step o d lg) as [[out d1] lg1] eqn:S. simpl in G1.
+    destruct (run_ops r d1 lg1) as [[xs1 d2] lg2] eqn:RO. injection E as <- <- <-.
+    destruct (step_Rel_all o d d' lg G H _ _ _ S) as (d1' & S' & R1).
+    destruct (IH d1 d1' lg1 G1 R1 _ _ _ RO) as (df' & RO' & Rf).
+    rewrite S', RO'. rewrite (Rel_state _ _ H), (Rel_state _ _ R1).
+    destruct H as (-> & _). destruct R1 as (-> & _). eauto.
+Qed.
+
+Theorem match_unobservable m d lg rest : good d -> inspects m (state_of d) = false ->
+  obs_of rest (after_match m d lg) lg = obs_of rest d lg
+  /\ log_of rest (after_match m d lg) lg = log_of rest d lg
+  /\ state_of (final_of rest (after_match m d lg) lg) = state_of (final_of rest d lg)
+  /\ d_called (final_of rest (after_match m d lg) lg) = d_called (final_of rest d lg)
+  /\ unhandled (final_of rest (after_match m d lg) lg) = unhandled (final_of rest d lg).
+Proof.
+  intros G I. pose proof (match_Rel m d d lg G (Rel_refl d) _ _ _ (match_parts m d lg)) as [_ MR].
+  rewrite <- inspects_consumes, I in MR.
+  pose proof (match_deferred_good m d lg G) as G1. fold (after_match m d lg) in G1.
+  unfold obs_of, log_of, final_of.
+  destruct (run_ops rest (after_match m d lg) lg) as [[xs df] lgf] eqn:E.
+  destruct (run_ops_Rel rest _ _ _ G1 MR _ _ _ E) as (df' & E' & R). rewrite E'. simpl.
+  pose proof (Rel_state _ _ R) as RS. destruct R as (A & _ & _ & _ & _ & U). unfold unhandled. auto.
+Qed.
+
+(* ---- the general form: any history against the history with its matches erased ---- *)
+Lemma erase_no_match ops : forall d lg o, In o (erase ops d lg) -> forall m, o <> OMatch m.
+Proof.
+  induction ops as [|a r IH]; intros d lg o HI m; simpl in HI; [contradiction|].
+  destruct (step a d lg) as [[out d1] lg1]. apply in_app_or in HI as [HI|HI]; [|eapply IH; eauto].
+  destruct a as [m'|v|e|cb eb| | | |x]; simpl in HI;
+    try (destruct HI as [<-|[]]; discriminate).
+  destruct (consumes m' (state_of d)); simpl in HI; [destruct HI as [<-|[]]; discriminate|contradiction].
+Qed.
+
+Theorem passive ops d lg : good d ->
+  (forall o, In o (erase ops d lg) -> forall m, o <> OMatch m)
+  /\ log_of (erase ops d lg) d lg = log_of ops d lg
+  /\ state_of (final_of (erase ops d lg) d lg) = state_of (final_of ops d lg)
+  /\ d_called (final_of (erase ops d lg) d lg) = d_called (final_of ops d lg)
+  /\ unhandled (final_of (erase ops d lg) d lg) = unhandled (final_of ops d lg).
+Proof.
+  intro G. split; [apply erase_no_match|].
+  unfold log_of, final_of. destruct (run_ops ops d lg) as [[xs df] lgf] eqn:E.
+  destruct (erase_simulation ops d d lg G (Rel_refl d) _ _ _ E) as (xs' & df' & E' & R). rewrite E'. simpl.
+  pose proof (Rel_state _ _ R) as RS. destruct R as (A & _ & _ & _ & _ & U). unfold unhandled. auto.
+Qed.
+
+Theorem extract_clause d lg : good d -> fst (fst (extract_result d lg)) = expect_extract (state_of d).
+Proof. apply extract_result_okb. Qed.
+
+Theorem sync_runner s :
+  sync_run_user (fired_stage s) = direct_run_user s
+  /\ sync_run_user (match s with inl v => StReturn v | inr e => StRaise e end) = direct_run_user s.
+Proof. split; [apply sync_fired | apply sync_direct]. Qed.
